@@ -572,3 +572,53 @@ func nilledElements(c *Ctx) {
 	}
 	R.Check(n > 0, "R14l", c.Cfg+"dereference-sites", "", "dereferences of possibly cleared elements were analysed", "none found")
 }
+
+// proxyCallGuards (part of R18d): every call of the backend's Get / Contains anywhere in
+// cache/disk is made for a requested size that was compared with max_proxy_blob_size on that path.
+// The queue worker is the one exception: it only receives requests that the sender guarded (R10b).
+func proxyCallGuards(c *Ctx) {
+	R := c.R
+	n := 0
+	for _, fi := range c.P.FuncsInPkg("/cache/disk") {
+		if fi.Decl.Body == nil || strings.HasSuffix(c.P.Fset.Position(fi.Decl.Pos()).Filename, "_test.go") {
+			continue
+		}
+		has := false
+		for _, call := range callsIn(fi.Decl.Body, true) {
+			if k := calleeKey(fi.Pkg.TypesInfo, call); k == "cache.(Proxy).Contains" || k == "cache.(Proxy).Get" {
+				has = true
+			}
+		}
+		if !has {
+			continue
+		}
+		key := fi.Key
+		if key == "disk.(*diskCache).containsWorker" {
+			n++
+			R.OK("R18d", c.Cfg+key+":proxy-call-guarded", c.P.Pos(fi.Decl.Pos()), "the queue worker asks the backend only about requests the sender put on the queue under the size guard (R10b)")
+			continue
+		}
+		var b *Base
+		b = NewBase(Hooks{EveryCall: func(x *Exec, call *ast.CallExpr, s St) []St {
+			k := calleeKey(x.Fn.Info, call)
+			if (k != "cache.(Proxy).Contains" && k != "cache.(Proxy).Get") || len(call.Args) < 4 {
+				return []St{s}
+			}
+			n++
+			t, ok := b.VTerm(x, call.Args[3], s)
+			guarded := ok && (relIs(s, "$recv.maxProxyBlobSize", "<", t, false) || relIs(s, t, "<=", "$recv.maxProxyBlobSize", true))
+			R.Check(guarded, "R18d", fmt.Sprintf("%s%s:%s#%d:proxy-call-guarded", c.Cfg, key, k[strings.LastIndex(k, ".")+1:], callOrdinal(x, call)), c.P.Pos(call.Pos()),
+				"the backend is asked only for a requested size that is <= max_proxy_blob_size on this path",
+				"the backend is consulted for "+exprStr(call.Args[3])+" without the max_proxy_blob_size guard on the requested size: an oversize object can be served, cached or reported present on the strength of the backend", x.Trace()...)
+			return []St{s}
+		}})
+		b.H.Call = errFork(b)
+		b.InlineOwnHelpers()
+		x := NewExec(c.P.FlowOf(fi), b)
+		x.Run(newSt())
+		if x.Aborted != "" {
+			R.Fail("R18d", c.Cfg+key+":proxy-call-guarded:explore", "", "exploration did not complete: "+x.Aborted)
+		}
+	}
+	R.Check(n >= 3, "R18d", c.Cfg+"proxy-call-sites", "", "the backend Get / Contains call sites of cache/disk were analysed", fmt.Sprintf("found %d", n))
+}
